@@ -1,0 +1,52 @@
+//go:build verif
+
+// Contracts for message.go (C07), checked by /verif/cmd/nsqvc. Comment-only file.
+
+package nsqd
+
+// A new message carries the id and the body it was given (the very slice: no copy) and the current time as its timestamp.
+//@ func NewMessage(id MessageID, body []byte) *Message
+//@   props C07 C01 C09 C10
+//@   ensures[fresh] result != nil && fresh(result) && !old(allocated(result)) && allocated(result)
+//@   ensures[id] forall k int :: {result.ID[k]} 0 <= k && k < 16 ==> result.ID[k] == id[k]
+//@   ensures[body] result.Body == body
+//@   ensures[timestamp] result.Timestamp == unixNano(lastNow)
+//@   ensures[first-attempt] result.Attempts == 0 && result.deferred == 0
+//@   ensures[bytes-kept] forall s []byte, k int :: {s[k]} base(s) >= 0 ==> s[k] == old(s[k])
+//@   modifies lastNow, elems(byte)
+
+//@ func decodeMessage(b []byte) (*Message, error)
+//@   props C07
+//@   ensures[short] len(b) < 26 ==> result1 != nil && result0 == nil
+//@   ensures[accept] len(b) >= 26 ==> result1 == nil && result0 != nil && fresh(result0)
+//@   ensures[timestamp] result1 == nil ==> result0.Timestamp == toI64(be64(b[0:8]))
+//@   ensures[attempts] result1 == nil ==> result0.Attempts == be16(b[8:10])
+//@   ensures[id] result1 == nil ==> forall k int :: {result0.ID[k]} 0 <= k && k < 16 ==> result0.ID[k] == b[10+k]
+//@   ensures[body] result1 == nil ==> result0.Body == b[26:]
+//@   ensures[input-kept] forall k int :: {b[k]} 0 <= k && k < len(b) ==> b[k] == old(b[k])
+//@   ensures[bytes-kept] forall s []byte, k int :: {s[k]} base(s) >= 0 ==> s[k] == old(s[k])
+//@   modifies elems(byte)
+
+//@ func (m *Message) WriteTo(w io.Writer) (int64, error)
+//@   props C07
+//@   requires m != nil && w != nil
+//@   ensures[count] result0 == wN - old(wN)
+//@   ensures[total] result1 == nil ==> result0 == 26 + len(m.Body)
+//@   ensures[timestamp] result0 >= 10 ==> sbe64(wOut, old(wN)) == toU64(m.Timestamp)
+//@   ensures[attempts] result0 >= 10 ==> sbe16(wOut, old(wN) + 8) == m.Attempts
+//@   ensures[id] forall k int :: {m.ID[k]} 0 <= k && k < 16 && 10 + k < result0 ==> wOut[old(wN) + 10 + k] == m.ID[k]
+//@   ensures[body] forall k int :: {m.Body[k]} 0 <= k && k < len(m.Body) && 26 + k < result0 ==> wOut[old(wN) + 26 + k] == m.Body[k]
+//@   ensures[earlier-output-kept] forall k int :: {wOut[k]} 0 <= k && k < old(wN) ==> wOut[k] == old(wOut)[k]
+//@   ensures[first-error] (result1 != nil <==> wErrs == old(wErrs) + 1) && (result1 == nil <==> wErrs == old(wErrs))
+//@   ensures[error-returned] result1 != nil ==> result1 == wLastErr
+//@   ensures[at-most-3-writes] wCalls - old(wCalls) <= 3 && (result1 == nil ==> wCalls == old(wCalls) + 3)
+//@   ensures[only-to-w] wCur == w && !old(wForeign) ==> !wForeign
+//@   ensures[message-kept] m.Timestamp == old(m.Timestamp) && m.Attempts == old(m.Attempts) && m.Body == old(m.Body)
+//@   modifies wN, wOut, wCalls, wErrs, wLastErr, wForeign, elems(byte)
+
+// Round trip. WriteTo puts toU64(Timestamp) / Attempts / ID / Body at offsets 0 / 8 / 10 / 26 of its output (clauses
+// timestamp, attempts, id, body above, over the ghost stream); decodeMessage reads the same four fields from the same offsets
+// of its input. The only non-identity step is the int64 -> uint64 -> int64 conversion of the timestamp:
+//@ lemma codec_roundtrip_timestamp: forall a seq[byte], o int, ts int ::
+//@      -9223372036854775808 <= ts && ts <= 9223372036854775807 && sbe64(a, o) == toU64(ts) ==> toI64(sbe64(a, o)) == ts
+//@   props C07
